@@ -284,7 +284,57 @@ def mean_obliquity_deg(e, site):
     eps = C.mean_obliquity(e)
     if not isinstance(eps, Angle):
         raise Violation("mean_obliquity returned %r" % (eps,), site="Coordinates.mean_obliquity", kind="type")
-    return eps()
+    v = eps()
+    # the receiver owns the Angle it was given and may re-use it (documented set()); whoever asks
+    # for the obliquity of the same epoch later must still get the right value
+    eps.set(0.0 if v != 0.0 else 1.0)
+    return v
+
+
+def body_route_lib(case):
+    """The route clause with the library's own coordinate conversions on the ecliptical leg
+    (equatorial2ecliptical / ecliptical2equatorial at the mean obliquity of each epoch), started
+    from equatorial or from ecliptical coordinates."""
+    w = Watch()
+    site = SITE["eq"]
+    e0, e1 = w.epoch(case["y0"]), w.epoch(case["y1"])
+    eps0 = mean_obliquity_deg(e0, site)
+    eps1 = mean_obliquity_deg(e1, site)
+    if case["start"] == "ecl":
+        lon0, lat0 = case["lon"], case["lat"]
+        a, d = C.ecliptical2equatorial(Angle(lon0), Angle(lat0), Angle(eps0))
+        ra0, dec0 = a(), d()
+        want0 = rot.ecl2equ(rot.vec(lon0, lat0), eps0)
+        if too_far(rot.sep(rot.vec(ra0, dec0), want0), TOL_ROUTE):
+            raise Violation("ecliptical2equatorial(%r, %r, obliquity %r) = (%r, %r), %.3e deg from the "
+                            "rotated direction" % (lon0, lat0, eps0, ra0, dec0,
+                                                   rot.sep(rot.vec(ra0, dec0), want0)),
+                            site="Coordinates.ecliptical2equatorial", kind="route_conversion")
+        lo, la = Angle(lon0), Angle(lat0)
+    else:
+        ra0, dec0 = case["lon"], case["lat"]
+        lo, la = C.equatorial2ecliptical(Angle(ra0), Angle(dec0), Angle(eps0))
+    x, y = call(FUNCS["eq"], site, e0, e1, w.angle(ra0), w.angle(dec0))
+    l1, b1 = call(FUNCS["ecl"], SITE["ecl"], e0, e1, w.angle(lo()), w.angle(la()))
+    a1, d1 = C.ecliptical2equatorial(Angle(l1), Angle(b1), Angle(eps1))
+    dist = rot.sep(rot.vec(x, y), rot.vec(a1(), d1()))
+    if too_far(dist, TOL_ROUTE):
+        raise Violation("precession %r -> %r of the %s direction (%r, %r): equatorial route gives (%r, %r), "
+                        "the route through the library's ecliptical coordinates (%r, %r) gives (%r, %r): "
+                        "%.3e deg apart" % (case["y0"], case["y1"],
+                                            "ecliptical" if case["start"] == "ecl" else "equatorial",
+                                            case["lon"], case["lat"], x, y, lo(), la(), a1(), d1(), dist),
+                        site="Coordinates.precession_equatorial/precession_ecliptical",
+                        kind="route_library_conversions", off=dist)
+    w.check(site)
+    labels = ["route_from_" + case["start"]]
+    nt = epoch_labels(case, labels)
+    nt = dir_labels(dec0, y, labels) or nt
+    if abs(la()) > 85.0:
+        labels.append("ecliptic_cap")
+    if abs(la()) == 90.0:
+        labels.append("ecliptic_pole_exact")
+    return {"labels": labels, "nontrivial": True, "show": {"equatorial": [x, y], "apart_deg": dist}}
 
 
 def body_route(case):
@@ -511,7 +561,7 @@ CLAUSES = {
     "identity_eq": make_identity("eq"), "identity_ecl": make_identity("ecl"),
     "roundtrip_eq": make_roundtrip("eq"), "roundtrip_ecl": make_roundtrip("ecl"),
     "rigid_eq": make_rigid("eq"), "rigid_ecl": make_rigid("ecl"),
-    "route": body_route, "newcomb": body_newcomb,
+    "route": body_route, "route_lib": body_route_lib, "newcomb": body_newcomb,
     "pm_eq": make_pm("eq"), "pm_ecl": make_pm("ecl"), "pm_newcomb": make_pm("newcomb"),
     "pm_space": body_pm_space, "pm_convert": body_pm_convert,
     "orbital": body_orbital,
@@ -582,6 +632,12 @@ def ecliptic_caps():
 def route_cases():
     return st.builds(lambda p, yy: {"ra": p[0], "dec": p[1], "y0": yy[0], "y1": yy[1]},
                      st.one_of(directions(), ecliptic_caps()),
+                     year_pairs(NARROW))
+
+
+def route_lib_cases():
+    return st.builds(lambda p, start, yy: {"lon": p[0], "lat": p[1], "start": start, "y0": yy[0], "y1": yy[1]},
+                     st.one_of(directions(), caps()), st.sampled_from(["equ", "ecl"]),
                      year_pairs(NARROW))
 
 
@@ -677,7 +733,7 @@ STRATS = {
     "identity_eq": identity_cases, "identity_ecl": identity_cases,
     "roundtrip_eq": lambda: roundtrip_cases(WIDE), "roundtrip_ecl": lambda: roundtrip_cases(NARROW),
     "rigid_eq": rigid_cases, "rigid_ecl": rigid_cases,
-    "route": route_cases, "newcomb": newcomb_cases,
+    "route": route_cases, "route_lib": route_lib_cases, "newcomb": newcomb_cases,
     "pm_eq": lambda: pm_cases("eq"), "pm_ecl": lambda: pm_cases("ecl"),
     "pm_newcomb": lambda: pm_cases("newcomb"),
     "pm_space": pm_space_cases, "pm_convert": pm_convert_cases,
@@ -689,7 +745,7 @@ PLAN = {
     "identity_eq": (1, 2500), "identity_ecl": (1, 2500),
     "roundtrip_eq": (3, 2500), "roundtrip_ecl": (2, 2500),
     "rigid_eq": (4, 1000), "rigid_ecl": (4, 1000),
-    "route": (3, 2500), "newcomb": (2, 2500),
+    "route": (3, 2500), "route_lib": (2, 2500), "newcomb": (2, 2500),
     "pm_eq": (2, 2000), "pm_ecl": (1, 2000), "pm_newcomb": (1, 2000),
     "pm_space": (1, 1500), "pm_convert": (1, 1500),
     "orbital": (3, 2500),
